@@ -1,0 +1,42 @@
+//go:build verif
+// +build verif
+
+package node
+
+import (
+	"sync/atomic"
+
+	"github.com/youzan/ZanRedisDB/raft"
+	"github.com/youzan/ZanRedisDB/raft/raftpb"
+)
+
+// VerifSetRaft installs a raft.Node implementation behind a KVNode that was
+// built by InitNamespaceNode and never started, and marks the node as a
+// single-member group led by itself so that the write gate lets proposals through.
+func (nd *KVNode) VerifSetRaft(n raft.Node) {
+	nd.rn.node = n
+	atomic.StoreInt32(&nd.rn.memberCnt, 1)
+	atomic.StoreUint64(&nd.rn.lead, uint64(nd.rn.config.ID))
+}
+
+// VerifProgress is the apply cursor kept by the harness between VerifApply calls.
+type VerifProgress struct {
+	np nodeProgress
+}
+
+// VerifApply hands one batch of committed entries to the real apply path.
+// Entries with Index <= replayUpTo are applied as "replaying".
+func (nd *KVNode) VerifApply(p *VerifProgress, ents []raftpb.Entry, replayUpTo uint64) {
+	nd.rn.lastIndex = replayUpTo
+	ev := applyInfo{ents: ents, raftDone: make(chan struct{}, 1)}
+	nd.applyEntries(&p.np, &ev)
+}
+
+// VerifStore exposes the store behind the state machine.
+func (nd *KVNode) VerifStore() *KVStore { return nd.store }
+
+// VerifClose closes the store of a node that was never started.
+func (nd *KVNode) VerifClose() { nd.sm.Close() }
+
+// VerifSetReady marks a namespace node ready without starting raft.
+func (nn *NamespaceNode) VerifSetReady() { atomic.StoreInt32(&nn.ready, 1) }
